@@ -333,6 +333,39 @@ def h_delayed(ctx, buffers, nheld):
   ctx.witness('done')
 
 
+def h_ip_traffic(ctx, buffers, kind):
+  """IP traffic between two learned hosts - a UDP datagram, its first fragment (MF set, offset 0), a later fragment, a TCP segment - twice in a
+  row: every frame is delivered exactly once to the port where the destination was seen (the first time through the controller, the second
+  time through whatever flow was installed), the control loop settles, no buffer stays occupied"""
+  net = Net(ctx, buffers)
+  A = b'\x02\x00\x00\x00\x00\x0a'; B = b'\x02\x00\x00\x00\x00\x0b'
+  pa = ctx.int('portA', 1, NPORTS); pb = ctx.int('portB', 1, NPORTS)
+  ctx.assume(pa != pb)
+  def plain(i, s, d): return bytes(d + s + bytes([0x08, 0x01, i, 0xaa, 0xbb, 0xcc]))
+  net.sw.rx_packet(net.pkt.ethernet(plain(0, A, b'\xff' * 6)), int(pa)); net.pump()
+  net.sw.rx_packet(net.pkt.ethernet(plain(1, B, A)), int(pb)); net.pump()
+  del net.outs[:]
+  sp = ctx.int('sport', 1024, 0xffff); dp = ctx.int('dport', 1024, 0xffff)
+  for v in (4789, 5353): ctx.assume(ctx.And(sp != v, dp != v))
+  pay = [0x55] * 16
+  if kind == 'tcp':
+    seg = [sp >> 8, sp & 255, dp >> 8, dp & 255] + [0] * 8 + [0x50, 0x02, 0, 0, 0, 0, 0, 0] + pay; proto = 6; fl = [0x40, 0]
+  else:
+    ulen = 8 + len(pay) + (64 if kind == 'udp_frag1' else 0)
+    seg = [sp >> 8, sp & 255, dp >> 8, dp & 255, ulen >> 8, ulen & 255, 0, 0] + pay; proto = 17
+    fl = {'udp': [0x40, 0], 'udp_frag1': [0x20, 0], 'udp_frag2': [0x00, 3]}[kind]
+  ip = [0x45, 0, 0, 20 + len(seg), 0, 7] + fl + [64, proto, 0, 0, 10, 0, 0, 1, 10, 0, 0, 2]
+  raw = env.tobytes(ctx, list(B) + list(A) + [0x08, 0x00] + ip + seg)
+  for rnd in (1, 2):
+    net.sw.rx_packet(net.pkt.ethernet(raw), int(pa)); net.pump()
+    ports = [p for p, b in net.outs]
+    ctx.check('round %d: delivered exactly once, to the port where the destination was seen' % rnd, ports == [int(pb)])
+    del net.outs[:]
+  ctx.check('no OpenFlow error was raised', not net.errors)
+  ctx.check('no packet buffer left occupied', all(x is None for x in net.sw._packet_buffer))
+  ctx.witness('done')
+
+
 def obligations(tier):
   thorough = tier != 'quick'
   cases = [dict(nframes=1, buffers=0, sweep=False), dict(nframes=2, buffers=0, sweep=False), dict(nframes=2, buffers=2, sweep=False),
@@ -347,7 +380,10 @@ def obligations(tier):
                       ingress="symbolic port", gaps="0..45 s symbolic with an expiry sweep before each frame (sweep cases)", buffering=sorted({c['buffers'] for c in cases}), frame_lengths=[18, 168], miss_send_len=128)
   dl = [dict(buffers=b, nheld=k) for b in (0, 1, 2, 3) for k in ((2, 3) if thorough else (2,))]
   nw = [dict(nsw=2, nframes=2, buffers=2), dict(nsw=2, nframes=2, buffers=0)] + ([dict(nsw=3, nframes=2, buffers=1), dict(nsw=2, nframes=3, buffers=2)] if thorough else [])
-  return [Obligation('O4_burst', h_burst, [dict(nburst=16, buffers=20), dict(nburst=16, buffers=4)] + ([dict(nburst=30, buffers=30)] if thorough else []), witnesses=('done',), max_decisions=40000,
+  ipt = [dict(buffers=b, kind=k) for b in (0, 2) for k in ('udp', 'udp_frag1', 'udp_frag2', 'tcp')]
+  return [Obligation('O5_ip_traffic', h_ip_traffic, ipt, witnesses=('done',), max_decisions=40000,
+                     desc='UDP / TCP / fragmented IP traffic between two learned hosts, with and without switch buffering'),
+          Obligation('O4_burst', h_burst, [dict(nburst=16, buffers=20), dict(nburst=16, buffers=4)] + ([dict(nburst=30, buffers=30)] if thorough else []), witnesses=('done',), max_decisions=40000,
                      desc='a burst of 16 (30) long frames whose packet-ins reach the controller in recv()-sized pieces: all forwarded once, in order'),
           Obligation('O3_network', h_network, nw, witnesses=('done', 'flood', 'unicast-known', 'filtered', 'crossed-a-link', 'end-to-end-unicast'), max_decisions=60000,
                      desc='a line of 2 (3) switches under one controller: every hop == the ideal bridge of that switch; end to end: no loop, no duplicate, floods reach every host port, a known host is reached'),
